@@ -692,9 +692,13 @@ func runC06(args []string) {
 		if a, ok := c["alg"].(string); ok {
 			alg = a
 		}
-		rng := newRand(int64(n)+int64(fl.int("seed", 1))*104729, "c06")
+		rot := int64(n) + int64(fl.int("seed", 1))*104729
+		if r, ok := c["rot"].(json.Number); ok {
+			rot, _ = r.Int64() // replay: the random decorations of the tree are a function of the case alone
+		}
+		rng := newRand(rot, "c06")
 		tree, _ := c["tree"].([]any)
-		ev := obj{"c": obj{"tree": tree, "penv": c["penv"], "alg": alg}, "err": false, "cmds": []any{}, "unchanged": false, "envunchanged": false}
+		ev := obj{"c": obj{"tree": tree, "penv": c["penv"], "alg": alg, "rot": rot}, "err": false, "cmds": []any{}, "unchanged": false, "envunchanged": false}
 		p, msg := guarded(func() {
 			steps := c06Build(tree, "", rng)
 			penv := envOf(c["penv"], rng)
